@@ -15,7 +15,7 @@ RULE = ('cases = groups of related calls: lin (a, b, alpha*a+beta*b; alpha,beta 
         'perm/batch (period list permuted, reversed, split into singletons/partitions), refine (all integer factors 2..8, own '
         'np.interp), objlin (AccSignal spectra before/after the values are replaced by alpha*a through the public API). '
         'Records: 14 shape classes, n in [4,400] (thorough up to 5000), dt log-uniform/nice, T/dt over [0.2,2e4], '
-        'xi in {0,.05,.5,.99,U(0,1)}. distinct = digest of the group inputs; non-trivial = base record not identically zero.')
+        'xi in {0,.05,.5,.99,.99999,1-1e-7,1-1e-10,U(0,1)}, integer-valued period containers with a leading 0 in the permutation/batching groups, extreme time bases. distinct = digest of the group inputs; non-trivial = base record not identically zero.')
 ASSUMPTIONS = ['relations are judged with rtol 1e-9 (linearity) / 1e-12 (causality, shift, permutation, batching; currently '
                'bit-identical, the count of bit-identical groups is reported) relative to the natural response scale '
                'max(|u|, |v|/w, |a|max/w^2) plus the double-precision rounding envelope of the recurrence',
@@ -102,7 +102,7 @@ def rows_close(ctx, clause, got, ref, periods, dt, xi, amax, n, rtol, wit, what,
 
 
 # --------------------------------------------------------------------------------------------- group drivers
-XIS = [0.0, 0.05, 0.5, 0.99]
+XIS = [0.0, 0.05, 0.5, 0.99, 0.99999, 1 - 1e-7, 1 - 1e-10]
 
 
 def draw_base(rng, tier, need_zero_start=False):
@@ -115,6 +115,8 @@ def draw_base(rng, tier, need_zero_start=False):
         x = x.copy()
         x[0] = 0.0
     dt = gen.dt(rng, 'log' if rng.random() < 0.6 else 'nice')
+    if rng.random() < 0.1:
+        dt = float(10 ** (rng.uniform(-9, -3) if rng.random() < 0.6 else rng.uniform(0, 3)))
     P = int(rng.integers(1, 7))
     ratios = np.clip(10 ** rng.uniform(np.log10(0.2), np.log10(2e4), size=P), 0.2 * (1 + 1e-9), 2e4)
     for k in range(P):
@@ -285,6 +287,13 @@ def g_shift(ctx, eqsig, g):
 def g_perm(ctx, eqsig, g, batch=False):
     rng = ctx.rng
     a, cls, dt, periods, xi = draw_base(rng, ctx.tier)
+    int_periods = rng.random() < 0.2
+    if int_periods:     # integer-valued period containers (lists/tuples/arrays of ints), usually with a leading 0
+        dt = float(rng.choice([0.01, 0.02, 0.05, 0.1, 0.25]))
+        k = int(rng.integers(2, 6))
+        periods = np.sort(rng.choice(np.arange(1, 8), size=k, replace=False)).astype(float)
+        if rng.random() < 0.75:
+            periods = np.concatenate([[0.0], periods])
     lead0 = periods[0] == 0
     body = periods[1:] if lead0 else periods
     if len(body) < 2:
@@ -300,7 +309,11 @@ def g_perm(ctx, eqsig, g, batch=False):
     trace.set_tag(tag + 'base')
     fn = [eqsig.sdof.response_series, eqsig.sdof.pseudo_response_spectra, eqsig.sdof.true_response_spectra][int(rng.integers(3))]
     fname = {eqsig.sdof.response_series: 'nj', eqsig.sdof.pseudo_response_spectra: 'pseudo', eqsig.sdof.true_response_spectra: 'true'}[fn]
-    fn(a, dt, periods, xi)
+    if int_periods:
+        ip = [int(t) for t in periods]
+        fn(a, dt, [ip, tuple(ip), np.array(ip, dtype=np.int64)][int(rng.integers(3))], xi)
+    else:
+        fn(a, dt, periods, xi)
     subsets = []
     if not batch:
         order = rng.permutation(len(body)) if rng.random() < 0.7 else np.arange(len(body))[::-1]
@@ -317,7 +330,11 @@ def g_perm(ctx, eqsig, g, batch=False):
         if lead0 and rng.random() < 0.7:
             p = np.concatenate([[0.0], p])
         trace.set_tag(tag + 'sub%d' % si)
-        fn(a, dt, [p, list(p), tuple(p)][int(rng.integers(3))], xi)
+        if int_periods and rng.random() < 0.5:
+            ip = [int(t) for t in p]
+            fn(a, dt, [ip, tuple(ip), np.array(ip, dtype=np.int64)][int(rng.integers(3))], xi)
+        else:
+            fn(a, dt, [p, list(p), tuple(p)][int(rng.integers(3))], xi)
     trace.set_tag(None)
     evs = [e for e in trace.take(tag) if e['fn'] == fname]
     base = [e for e in evs if e['tag'].endswith('base')]
